@@ -166,3 +166,5 @@ func vCrashAt(k int, short int, after func()) {} // engine only
 func vCrashed() bool                          { return false }
 func vSetCanClone(on bool)                    {}
 func vFSList(dir string) []string             { return nil }
+func vSetBlockSize(n int) {}
+func vClones() int        { return 0 }
